@@ -181,12 +181,23 @@ pub fn record(output: &str) {
                 let first_only = kws.body.safety.mode == CheckMode::FirstCollisionOnly;
                 let details_same = first_only || norm(kws.collision_details(&q)) == norm(kws.body.collision_details(&q, kws.kinematics.as_ref()));
                 let near_same = norm(kws.near(&q, &wide)) == norm(kws.body.near(&q, kws.kinematics.as_ref(), &wide));
+                // the mesh helper behind the positioned robot: every vertex moved by the transform, same triangles
+                let tm_ok = {
+                    let t: nalgebra::Isometry3<f32> = links[2].cast();
+                    let src = &kws.body.joint_meshes[2];
+                    match guarded(|| rs_opw_kinematics::collisions::transform_mesh(src, &t)) {
+                        Some(m) => m.indices() == src.indices() && m.vertices().len() == src.vertices().len()
+                            && m.vertices().iter().zip(src.vertices()).all(|(a, b)| (a - t.transform_point(b)).norm() < 1e-5),
+                        None => false,
+                    }
+                };
                 let pr = kws.positioned_robot(&q);
                 let mut pos_ok = pr.joints.len() == 6 && pr.tool.is_some() && pr.environment.len() == kws.body.collision_environment.len();
                 for i in 0..6.min(pr.joints.len()) {
                     let t: nalgebra::Isometry3<f32> = links[i].cast();
                     if pr.joints[i].transform != t { pos_ok = false; }
                 }
+                if !tm_ok { pos_ok = false; }
                 if let Some(t) = &pr.tool { let t6: nalgebra::Isometry3<f32> = links[5].cast(); if t.transform != t6 { pos_ok = false; } }
                 out.put(json!({"ev": "shape", "outcome": "ok", "entry": entry, "ctor": case.ctor, "case": k,
                     "inner": inner.iter().map(au6).collect::<Vec<_>>(), "outer": outer.iter().map(au6).collect::<Vec<_>>(),
